@@ -17,8 +17,8 @@ use x25519_dalek::{PublicKey, StaticSecret};
 
 pub const CHECK: Check = Check { id: "C07", level: "exploration", flavours: &["prod"], run, replay };
 
-const RULE: &str = "three generated families: (fresh) N archives created with identical inputs in this process plus 8 worker \
-processes x 64 archives: symmetric key, archive nonce, ephemeral public key and wrapped keys must be pairwise distinct over \
+const RULE: &str = "three generated families: (fresh) N archives created with identical inputs (the same configuration, reached through 8 \
+different histories of enable / disable / set_layers calls in turn) in this process plus 8 worker processes x 64 archives: symmetric key, archive nonce, ephemeral public key and wrapped keys must be pairwise distinct over \
 all of them and every bit position of key / nonce / ephemeral key must be set in 35-65 % of the samples; (plaintext) \
 encrypted archives (encrypt, compress+encrypt with incompressible data) whose names and contents are unique high-entropy \
 markers, incl. flushes and piece sizes around the cipher buffer and the chunk: no 16-byte window of any content and no \
@@ -29,7 +29,10 @@ distinct = hash of the case. 'Never repeated' cannot be established by testing: 
 archives or processes, gross entropy loss and any write path that bypasses the cipher are what this detects.";
 
 fn one_header(publics: &[PublicKey]) -> Result<([u8; 32], [u8; 8], refimpl::EncHeader), String> {
-    let cfg = prog::writer_config(1, 0, publics);
+    // "identical inputs": the same final configuration, reached through each of the configuration call histories in turn
+    static TURN: std::sync::atomic::AtomicUsize = std::sync::atomic::AtomicUsize::new(0);
+    let path = TURN.fetch_add(1, std::sync::atomic::Ordering::Relaxed) % prog::CONFIG_PATHS as usize;
+    let cfg = prog::writer_config_via(path as u8, 1, 0, publics);
     let key = *cfg.encryption_key();
     let nonce = *cfg.encryption_nonce();
     let mut w = ArchiveWriter::from_config(Vec::new(), cfg).map_err(|e| format!("from_config: {e:?}"))?;
@@ -194,7 +197,7 @@ fn plaintext(c: &PlainCase, st: &mut Stats) -> Result<(), String> {
     let layers = if c.compress { 3 } else { 1 };
     let names: Vec<String> = (0..c.nfiles).map(|i| format!("name-{}", hex::encode(&util::seed32(c.seed as u64, "c07-name", i as u64)[..12]))).collect();
     let r = util::catch(|| -> Result<(Vec<u8>, Vec<Vec<u8>>), String> {
-        let mut w = ArchiveWriter::from_config(prog::RecSink::default(), prog::writer_config(layers, c.level, &keys.publics)).map_err(|e| format!("{e:?}"))?;
+        let mut w = ArchiveWriter::from_config(prog::RecSink::default(), prog::writer_config_via((c.seed % 8) as u8, layers, c.level, &keys.publics)).map_err(|e| format!("{e:?}"))?;
         let ids: Vec<u64> = names.iter().map(|n| w.start_file(n)).collect::<Result<_, _>>().map_err(|e| format!("{e:?}"))?;
         let mut contents = Vec::new();
         for (j, (f, size, flush)) in c.pieces.iter().enumerate() {
